@@ -25,7 +25,7 @@ ALLOCATORS = {"malloc": False, "calloc": False, "strdup": False, "strndup": Fals
               "opendir": True, "realloc": False}      # value: may legitimately return NULL
 RELEASERS = {"free": 0, "fclose": 0, "closedir": 0, "econf_freeFile": 0, "econf_freeArray": 0, "econf_freeExtValue": 0}
 RELEASE_RETURNS_NULL = ("econf_freeFile", "econf_freeArray")
-MAX_STATES = 400
+MAX_STATES = 3000
 
 
 class Finding:
@@ -66,6 +66,15 @@ class State:
     def refs(self, obj):
         return [l for l, o in self.env.items() if o == obj]
 
+    def gc(self):
+        """forget dead objects: released or moved and no longer referenced"""
+        live = set(self.env.values())
+        for o in list(self.heap):
+            if o not in live and self.heap[o] in ("F", "M"):
+                del self.heap[o]
+                self.site.pop(o, None)
+                self.maybe_null.discard(o)
+
 
 class Summary:
     """Effect of a callee on the objects behind its pointer-to-pointer arguments, keyed by
@@ -100,14 +109,87 @@ class OwnAnalysis:
             if ct.endswith("*") and not d.get("static"):
                 self.ptr_locals.add(name)
         self.cleanup = {name: d["cleanup"] for name, d in fn.local_decls().items() if d.get("cleanup")}
+        self.ptr_locals = self._interesting(self.ptr_locals)
+        self.released_params = set()
+        for c in fn.calls(tuple(RELEASERS)):
+            for a in c.call_args():
+                a2 = a.strip()
+                if a2.k == "DeclRefExpr" and a2.j.get("dk") == "param":
+                    self.released_params.add(a2.j["name"])
+        # block-scoped locals die when their loop iteration ends
+        self.loop_scoped = {}
+        for n in fn.walk():
+            if n.k in ("WhileStmt", "ForStmt", "DoStmt"):
+                hb = [b for b in self.cfg.blocks.values() if b.term is n]
+                if not hb:
+                    continue
+                body = n.child("body")
+                names = set()
+                if body is not None:
+                    for x in body.walk():
+                        if x.k == "DeclStmt":
+                            for d in x.j.get("decls", []):
+                                names.add(d["name"])
+                inside = set(self.cfg.natural_loop(hb[0].id))
+                for b2 in self.cfg.blocks.values():
+                    probe = (b2.elems[:1] or []) + ([b2.term] if b2.term is not None else [])
+                    if any(x.within(n) for x in probe):
+                        inside.add(b2.id)
+                self.loop_scoped[hb[0].id] = (names & self.ptr_locals, inside)
+
+    def _interesting(self, cands):
+        """only locals that can own something: assigned from an allocator / fresh function / releaser result,
+        passed to a releaser, address passed to a routine that stores an allocation, or aliases of such"""
+        fn = self.fn
+        keep = set()
+        alloc_like = set(ALLOCATORS) | self.fresh_funcs | set(RELEASERS)
+
+        def callee_of(e):
+            e = e.strip()
+            if e.k == "ConditionalOperator":
+                return callee_of(e.child("then")) or callee_of(e.child("else"))
+            if e.k == "CallExpr":
+                return e.j.get("callee") if e.j.get("callee") in alloc_like else None
+            return None
+        assigns = []
+        for lhs, rhs, st in fn.assignments():
+            name = lhs["name"] if isinstance(lhs, dict) else (lhs.strip().j.get("name") if lhs.strip().k == "DeclRefExpr" else None)
+            if name in cands:
+                assigns.append((name, rhs))
+                if callee_of(rhs):
+                    keep.add(name)
+        for c in fn.calls():
+            cn = c.j.get("callee")
+            for a in c.call_args():
+                s2 = a.strip()
+                if cn in RELEASERS and s2.k == "DeclRefExpr" and s2.j.get("name") in cands:
+                    keep.add(s2.j["name"])
+                if s2.k == "UnaryOperator" and s2.j.get("op") == "&":
+                    i = s2.children[0].strip()
+                    if i.k == "DeclRefExpr" and i.j.get("name") in cands and (cn in self.summaries or cn in ("asprintf", "vasprintf", "scandir", "getline")):
+                        keep.add(i.j["name"])
+        changed = True
+        while changed:
+            changed = False
+            for name, rhs in assigns:
+                r = rhs.strip()
+                if r.k == "DeclRefExpr" and r.j.get("name") in keep and name not in keep:
+                    keep.add(name)
+                    changed = True
+                if name in keep and r.k == "DeclRefExpr" and r.j.get("name") in cands and r.j["name"] not in keep:
+                    keep.add(r.j["name"])
+                    changed = True
+        return keep | set(self.cleanup)
 
     # ---- locations -------------------------------------------------------------------------------
     def loc_of(self, n):
         """location key of an lvalue expression, or None when not tracked"""
         s = n.strip()
+        if s.k == "BinaryOperator" and s.j.get("op") == "=":
+            return self.loc_of(s.children[0])
         if s.k == "DeclRefExpr" and s.j.get("dk") == "local" and s.j["name"] in self.ptr_locals:
             return s.j["name"]
-        if s.k == "DeclRefExpr" and s.j.get("dk") == "param" and s.j.get("ct", "").endswith("*") and not s.j.get("ct", "").endswith("**"):
+        if s.k == "DeclRefExpr" and s.j.get("dk") == "param" and s.j["name"] in self.released_params:
             return s.j["name"]
         if s.k == "UnaryOperator" and s.j.get("op") == "*":
             i = s.children[0].strip()
@@ -122,7 +204,15 @@ class OwnAnalysis:
         self.findings.setdefault(f.key, f)
 
     def new_obj(self, st, node, what, maybe_null=False):
-        oid = "o%d@%s" % (node.id, node.j.get("line"))
+        base = "o%d@%s" % (node.id, node.j.get("line"))
+        oid = base
+        for gen in range(4):
+            cand = base if gen == 0 else "%s#%d" % (base, gen)
+            if cand not in st.heap or (st.heap[cand] in ("F", "M") and not st.refs(cand)) or not st.refs(cand) and st.heap[cand] != "O":
+                oid = cand
+                break
+        else:
+            oid = base
         st.heap[oid] = "O"
         st.site[oid] = what
         if maybe_null:
@@ -170,6 +260,9 @@ class OwnAnalysis:
             if b == NULL and a not in (UNK,):
                 st.maybe_null.add(a)
                 return a
+            if a not in (UNK, NULL) and b not in (UNK, NULL) and st.heap.get(a) == "O" and st.heap.get(b) == "O":
+                st.heap.pop(b, None)       # two allocations, one of them made: one abstract object
+                return a
             return UNK
         if s.k == "CallExpr":
             c = s.j.get("callee")
@@ -195,6 +288,16 @@ class OwnAnalysis:
             return v
         return UNK
 
+    def result_var(self, c):
+        up = c.up()
+        if up is not None and up.k == "BinaryOperator" and up.j.get("op") == "=" and up.children[1].strip() is c:
+            return render(up.children[0])
+        if up is not None and up.k == "DeclStmt":
+            for d in up.j.get("decls", []):
+                if d.get("init", -1) >= 0 and self.fn.nodes[d["init"]].strip() is c:
+                    return d["name"]
+        return None
+
     def handle_call(self, st, c, states_out):
         """Effects of a call statement that are not assignments: releases, out-parameters, summaries.
         May fork: appends extra states to states_out and returns the (possibly modified) main state list."""
@@ -213,13 +316,23 @@ class OwnAnalysis:
                 loc = self.loc_of(a.children[0])
                 if loc is not None:
                     self.assign(st, loc, self.new_obj(st, c, "asprintf() at %s" % c.where), c)
+            rv = self.result_var(c)
+            if rv:
+                st.facts[rv] = "NONNEG"      # no allocation failure
             return [st]
         if name == "scandir" and len(args) > 1:
             a = args[1].strip()
+            rv = self.result_var(c)
             if a.k == "UnaryOperator" and a.j.get("op") == "&":
                 loc = self.loc_of(a.children[0])
                 if loc is not None:
-                    self.assign(st, loc, self.new_obj(st, c, "scandir() result at %s" % c.where, maybe_null=True), c)
+                    s2 = st.copy()
+                    self.assign(st, loc, self.new_obj(st, c, "scandir() result at %s" % c.where), c)
+                    if rv:
+                        st.facts[rv] = "POS"
+                        s2.facts[rv] = "NONPOS"
+                    s2.trail = s2.trail + ("%s: scandir() found nothing" % c.where,)
+                    return [st, s2]
             return [st]
         if name == "getline" and args:
             return [st]     # grows the same buffer
@@ -269,6 +382,11 @@ class OwnAnalysis:
                     if old not in (None, NULL, UNK):
                         s2.heap[old] = "F"
                     s2.env[loc] = NULL
+                elif eff == "replace":
+                    old = s2.env.get(loc)
+                    if old not in (None, NULL, UNK):
+                        s2.heap[old] = "F"
+                    s2.env[loc] = self.new_obj(s2, c, "object created by %s() at %s" % (name, c.where))
                 elif eff == "keep":
                     pass
                 elif eff == "consume":
@@ -294,7 +412,7 @@ class OwnAnalysis:
                 if not (r.k == "CallExpr" and r.j.get("callee") in self.summaries):
                     cv = rhs.const_value()
                     if r.k == "DeclRefExpr" and r.j.get("dk") == "enum":
-                        st.facts[lv] = "Z" if r.j.get("val") == 0 else r.j["name"]
+                        st.facts[lv] = "Z" if r.j.get("val") == 0 else (r.j["name"] if r.j["name"] == "ECONF_NOFILE" else "NZ")
                     elif cv is not None:
                         st.facts[lv] = "Z" if cv == 0 else "NZ"
                     elif r.k == "CallExpr":
@@ -323,6 +441,11 @@ class OwnAnalysis:
             for d in n.j.get("decls", []):
                 if d.get("init", -1) >= 0 and d["name"] in self.ptr_locals:
                     init = self.fn.nodes[d["init"]]
+                    if d["name"] in self.cleanup:
+                        # the previous iteration's object was released by the compiler when the scope was left
+                        old = st.env.get(d["name"])
+                        if old not in (None, NULL, UNK) and st.heap.get(old) == "O":
+                            st.heap[old] = "F"
                     val = self.eval_rhs(st, init, n)
                     st.env[d["name"]] = val
                 elif d["name"] in self.ptr_locals:
@@ -330,7 +453,7 @@ class OwnAnalysis:
                 if d.get("init", -1) >= 0 and d["name"] in self.err_vars:
                     init = self.fn.nodes[d["init"]].strip()
                     if init.k == "DeclRefExpr" and init.j.get("dk") == "enum":
-                        st.facts[d["name"]] = "Z" if init.j.get("val") == 0 else init.j["name"]
+                        st.facts[d["name"]] = "Z" if init.j.get("val") == 0 else (init.j["name"] if init.j["name"] == "ECONF_NOFILE" else "NZ")
                     elif not (init.k == "CallExpr" and init.j.get("callee") in self.summaries):
                         st.facts.pop(d["name"], None)
             return [st]
@@ -390,8 +513,25 @@ class OwnAnalysis:
                         return None
                     st.facts[atom] = "Z"
             return st
+        if lit.kind == "lt":
+            l, r = render(lit.lhs), render(lit.rhs)
+            lc, rc = lit.lhs.const_value(), lit.rhs.const_value()
+            # 0 < n   /  n < 0  /  n < 1
+            if lc == 0 and r in st.facts:
+                f = st.facts[r]
+                if lit.pol and f == "NONPOS":
+                    return None
+                if not lit.pol and f == "POS":
+                    return None
+            if rc == 0 and l in st.facts:
+                f = st.facts[l]
+                if lit.pol and f in ("NONNEG", "POS", "Z"):
+                    return None
+            return st
         if lit.kind == "eq":
             a, b = render(lit.lhs), render(lit.rhs)
+            if lit.rhs.const_value() == -1 and a in st.facts and st.facts[a] == "NONNEG" and lit.pol:
+                return None
             for var, other, on in ((a, b, lit.rhs), (b, a, lit.lhs)):
                 if var in self.err_vars:
                     os_ = on.strip()
@@ -432,36 +572,44 @@ class OwnAnalysis:
                 st.env["*" + p] = oid
             else:
                 st.env["*" + p] = UNK
-        for p in self.fn.params:
-            ct = p.get("ct", "")
-            if ct.endswith("*") and not ct.endswith("**"):
-                st.env[p["name"]] = UNK
+        for p in self.released_params:
+            oid = "caller:" + p
+            st.heap[oid] = "C"
+            st.site[oid] = "the object passed as %s" % p
+            st.maybe_null.add(oid)
+            st.env[p] = oid
         return st
 
     def run(self):
         cfg = self.cfg
         states = {b: {} for b in cfg.blocks}
+        pending = {b: [] for b in cfg.blocks}
         init = self.initial()
         states[cfg.entry][init.key()] = init
+        pending[cfg.entry].append(init)
         work = [cfg.entry]
         iters = 0
+        exit_seen = set()
         while work:
             b = work.pop(0)
             iters += 1
-            if iters > 20000:
+            if iters > 200000:
                 self.truncated = True
                 break
             blk = cfg.blocks[b]
-            cur = [s.copy() for s in states[b].values()]
+            cur = [s.copy() for s in pending[b]]
+            pending[b] = []
             for n in blk.elems:
                 nxt = []
                 for s in cur:
                     nxt.extend(self.exec_elem(s, n))
                 cur = nxt
-                if len(cur) > MAX_STATES:
-                    self.truncated = True
-                    cur = cur[:MAX_STATES]
-            # cleanup attribute: variables leaving scope (approximated: at function exit edges and loop back edges of their scope)
+                if n.k in ("CallExpr", "BinaryOperator", "DeclStmt"):
+                    seen_k = {}
+                    for s in cur:
+                        s.gc()
+                        seen_k.setdefault(s.key(), s)
+                    cur = list(seen_k.values())
             for i, succ in enumerate(blk.succs):
                 if succ is None:
                     continue
@@ -474,20 +622,34 @@ class OwnAnalysis:
                         s2.trail = s2.trail + ("%s: %s" % (blk.cond.where, lit),)
                     if succ == cfg.exit:
                         ret = cfg.return_of_block(b)
+                        ek = (b, s2.key())
+                        if ek in exit_seen:
+                            continue
+                        exit_seen.add(ek)
                         self.at_exit(s2, ret, b)
                         continue
+                    for hb2, (names, body) in self.loop_scoped.items():
+                        if names and ((succ == hb2 and b in body) or (b in body and succ not in body)):
+                            for v in names:
+                                old = s2.env.pop(v, None)
+                                if v in self.cleanup and old not in (None, NULL, UNK) and s2.heap.get(old) == "O":
+                                    s2.heap[old] = "F"
+                    s2.gc()
                     k = s2.key()
                     if k not in states[succ]:
                         if len(states[succ]) >= MAX_STATES:
                             self.truncated = True
                             continue
                         states[succ][k] = s2
+                        pending[succ].append(s2)
                         if succ not in work:
                             work.append(succ)
         return self
 
     def at_exit(self, st, ret, b):
         node = ret if ret is not None else (self.cfg.blocks[b].elems[-1] if self.cfg.blocks[b].elems else self.fn.body)
+        if ret is not None and query.returned_constant(ret) == "ECONF_NOMEM":
+            return          # allocation failure is outside the fault list (DESIGN 0.4)
         # cleanup-attribute variables are released by the compiler
         for v in self.cleanup:
             obj = st.env.get(v)
@@ -501,6 +663,9 @@ class OwnAnalysis:
                 if st.heap.get(obj) == "F":
                     self.report("dangling-out-pointer", node, "*" + p,
                                 "`*%s` still points to %s, which was released: the caller will free or use it again" % (p, st.site.get(obj, "an object")), st)
+        for loc, obj in st.env.items():
+            if obj not in (None, NULL, UNK) and any(loc.startswith("(*%s)" % p) or loc.startswith("%s->" % p) for p in self.pp_params + [q["name"] for q in self.fn.params]):
+                handed.add(obj)     # stored in a field of an object the caller holds
         for obj, h in st.heap.items():
             if h == "O" and obj not in handed:
                 refs = st.refs(obj)
